@@ -36,11 +36,33 @@
 
    Dev_AssignUnsorted = TRUE models DESIGN 7 #20 (partitioning.AssignRanges
    sweeps the old operator checkpoints assuming they are sorted by key range;
-   they are in ACK order): on Restart an operator may get no checkpoint.      *)
+   they are in ACK order): on Restart an operator may get no checkpoint.
+
+   RESCALE AT RECOVERY. W is the LARGEST worker count; nw is the count of the
+   running generation (nodes nw+1..W do not exist: all their variables stay
+   empty). Restart(n) boots n \in Counts workers: splits are re-assigned to
+   runner ((s-1) % n)+1 (the harness splitter), key ownership is recomputed
+   like partitioning.KeySpace (G key groups cut into n contiguous ranges, the
+   first G % n one longer) and new operator t restores from the checkpoints of
+   the old operators whose range OVERLAPS its own (jobs.Assembly.Deploy +
+   partitioning.AssignRanges), keeping only the keys it owns (DataOwnership).
+   G = 0 is the legacy mode: Counts = {W} and OwnerDigits names the owners.
+
+   PUBLICATION. A checkpoint whose last ack arrived is handed to storage
+   asynchronously (snapshots.Store.finishSnapshot): it sits in pubs until
+   Publish(p) writes it. Overlap = TRUE lets the job create the next checkpoint
+   while publications are still in flight (the store only refuses while one is
+   PENDING), so two writes can be in flight and land in either order; a write
+   that lands after a newer one is superseded (its file is removed again), a
+   restart always loads the highest id present.                              *)
 EXTENDS Integers, Sequences, FiniteSets, TLC, Json
 
-CONSTANTS W,          \* workers
-          NSplits,    \* splits 1..NSplits; split s is read by runner ((s-1) % W)+1
+CONSTANTS W,          \* workers (the largest count when the job is rescaled at recovery)
+          Rescale,    \* worker counts a generation may have (Init and Restart choose one); {} = always W
+          G,          \* key groups (0 = legacy: owners given by OwnerDigits, Counts = {W})
+          GroupDigits,\* G > 0: decimal digits, one per key: the key group (1..G) of key k
+          Overlap,    \* may a checkpoint be created while a publication is in flight
+          NSplits,    \* splits 1..NSplits; split s is read by runner ((s-1) % nw)+1
           NRecs,      \* records per split
           KeyDigits,  \* decimal digits, one per record (split 1 first): the key (1..9) of every record,
                       \* e.g. 1221 = split 1: keys 1,2 ; split 2: keys 2,1 (a cfg file cannot hold tuples)
@@ -52,6 +74,7 @@ CONSTANTS W,          \* workers
           MaxLen,     \* behaviour length bound (generation; large for exhaustive runs)
           StopAtDone, \* generation: stop a behaviour at quiescence
           KillDilution, \* generation: a Kill is a candidate step with probability 1/KillDilution
+          PubDilution,  \* generation: a Publish is a candidate step with probability 1/PubDilution (writes stay in flight)
           Dev_AssignUnsorted
 
 Workers == 1..W
@@ -62,17 +85,25 @@ Pow10(n) == IF n = 0 THEN 1 ELSE 10 * Pow10(n - 1)
 RECURSIVE NDigits(_)
 NDigits(n) == IF n < 10 THEN 1 ELSE 1 + NDigits(n \div 10)
 Digit(code, len, p) == (code \div Pow10(len - p)) % 10      \* p-th digit from the left of a len-digit number
-Owner == [k \in 1..NDigits(OwnerDigits) |-> Digit(OwnerDigits, NDigits(OwnerDigits), k)]
+Counts == IF Rescale = {} THEN {W} ELSE Rescale
+NK == IF G = 0 THEN NDigits(OwnerDigits) ELSE NDigits(GroupDigits)          \* number of keys
+Grp == [k \in 1..NK |-> IF G = 0 THEN 0 ELSE Digit(GroupDigits, NK, k) - 1]   \* 0-based key group of key k
+\* partitioning.keyGroupRanges(G, n): range i (0-based) starts at RStart(n, i); the first G % n ranges are one longer
+Min2(a, b) == IF a < b THEN a ELSE b
+RStart(n, i) == i * (G \div n) + Min2(i, G % n)
+RangeOf(n, g) == CHOOSE i \in 1..n : RStart(n, i - 1) <= g /\ g < RStart(n, i)
+\* the operator owning key k when there are n workers
+OwnerAt == [n \in Counts |-> [k \in 1..NK |->
+              IF G = 0 THEN Digit(OwnerDigits, NK, k) ELSE RangeOf(n, Grp[k])]]
+\* do the key group ranges of operator t (of n) and operator f (of m) overlap
+Overlaps(n, t, m, f) == RStart(n, t - 1) < RStart(m, f) /\ RStart(m, f - 1) < RStart(n, t)
+ASSUME Counts \subseteq 1..W /\ Counts # {} /\ (G = 0 => Counts = {W}) /\ (G > 0 => \A n \in Counts : n <= G)
 \* KeyDigits = 0: formula mode for inputs too long for a 32-bit integer (trace validation)
 KeyOf == [s \in Splits |-> [i \in 1..NRecs |->
-            IF KeyDigits = 0 THEN ((s * 7 + i * 3) % NDigits(OwnerDigits)) + 1
+            IF KeyDigits = 0 THEN ((s * 7 + i * 3) % NK) + 1
             ELSE Digit(KeyDigits, NSplits * NRecs, (s - 1) * NRecs + i)]]
-Keys    == DOMAIN Owner
+Keys    == 1..NK
 Key(e)  == KeyOf[e[1]][e[2]]
-Own(e)  == Owner[Key(e)]
-RunnerOf(s) == ((s - 1) % W) + 1
-SplitsOf(r) == {s \in Splits : RunnerOf(s) = r}
-Nodes   == Workers \cup (IF KillJob THEN {0} ELSE {})   \* 0 = the job
 
 Max(S) == CHOOSE x \in S : \A y \in S : y <= x
 PrevSame(e) == LET c == {j \in 1..(e[2] - 1) : KeyOf[e[1]][j] = Key(e)} IN IF c = {} THEN 0 ELSE Max(c)
@@ -92,18 +123,18 @@ GivenSeq(s, q) ==
        \o GivenSeq(ApplyOne(s, e), Tail(q))
 CleanGiven(g) == g.cnt = 0 /\ g.last = PrevSame(<<g.s, g.i>>)
 \* the state of the failure-free run after the first cur[s] records of every split s
-CutSt(o, cur) == [cnt  |-> [e \in Ev |-> IF Own(e) = o /\ e[2] <= cur[e[1]] THEN 1 ELSE 0],
-                  last |-> [ks \in Keys \X Splits |->
-                              LET c == {j \in 1..cur[ks[2]] : KeyOf[ks[2]][j] = ks[1] /\ Owner[ks[1]] = o}
-                              IN IF c = {} THEN 0 ELSE Max(c)]]
+CutStAt(n, o, cur) ==
+  [cnt  |-> [e \in Ev |-> IF OwnerAt[n][Key(e)] = o /\ e[2] <= cur[e[1]] THEN 1 ELSE 0],
+   last |-> [ks \in Keys \X Splits |->
+               LET c == {j \in 1..cur[ks[2]] : KeyOf[ks[2]][j] = ks[1] /\ OwnerAt[n][ks[1]] = o}
+               IN IF c = {} THEN 0 ELSE Max(c)]]
 
 \* ---- messages ------------------------------------------------------------
 NoMsg == [to |-> 0, k |-> "none", s |-> 0, i |-> 0, n |-> 0]
-EvMsg(e) == [to |-> Own(e), k |-> "ev", s |-> e[1], i |-> e[2], n |-> 0]
-BarMsgs(n) == [o \in Workers |-> [to |-> o, k |-> "bar", s |-> 0, i |-> 0, n |-> n]]   \* a sequence, operator order
 None == [n |-> 0]
 
-VARIABLES dead,      \* set of dead nodes
+VARIABLES nw,        \* worker count of the running generation (nodes 1..nw exist)
+          dead,      \* set of dead nodes
           cursor,    \* cursor[s] = records of split s read
           out,       \* out[r]: the runner's output stream
           slot,      \* slot[r][o]: the HandleEventBatch call in flight (at the gate or inside the operator)
@@ -114,36 +145,48 @@ VARIABLES dead,      \* set of dead nodes
           opack,     \* opack[o]: OperatorCheckpointComplete in flight [n, snap] or None
           startq,    \* startq[r]: StartCheckpoint(n) in flight to runner r (0 = none)
           srack,     \* srack[r]: SourceRunnerCheckpointComplete in flight [n, cur] or None
-          ckptId, pending, pub, completed,   \* job coordinator / storage
+          ckptId, pending, pubs, completed,  \* job coordinator / storage (pubs: writes in flight)
           nck, nkills, clean, lostOps, hist
 
-vars == <<dead, cursor, out, slot, inside, pend, st, bar, opack, startq, srack,
-          ckptId, pending, pub, completed, nck, nkills, clean, lostOps, hist>>
-view == <<dead, cursor, out, slot, inside, pend, st, bar, opack, startq, srack,
-          ckptId, pending, pub, completed, nck, nkills, clean, lostOps>>
+vars == <<nw, dead, cursor, out, slot, inside, pend, st, bar, opack, startq, srack,
+          ckptId, pending, pubs, completed, nck, nkills, clean, lostOps, hist>>
+view == <<nw, dead, cursor, out, slot, inside, pend, st, bar, opack, startq, srack,
+          ckptId, pending, pubs, completed, nck, nkills, clean, lostOps>>
 
-NoCkpt == [n |-> 0, sr |-> {}, ops |-> <<>>, cur |-> [s \in Splits |-> 0], snaps |-> [o \in Workers |-> EmptySt]]
+Live        == 1..nw
+Own(e)      == OwnerAt[nw][Key(e)]
+RunnerOf(s) == ((s - 1) % nw) + 1
+SplitsOf(r) == {s \in Splits : RunnerOf(s) = r}
+Nodes       == Live \cup (IF KillJob THEN {0} ELSE {})   \* 0 = the job
+CutSt(o, cur) == CutStAt(nw, o, cur)
+EvMsg(e) == [to |-> Own(e), k |-> "ev", s |-> e[1], i |-> e[2], n |-> 0]
+BarMsgs(n) == [o \in Live |-> [to |-> o, k |-> "bar", s |-> 0, i |-> 0, n |-> n]]   \* a sequence, operator order
 
-Init == /\ dead = {} /\ cursor = [s \in Splits |-> 0] /\ out = [r \in Workers |-> <<>>]
+\* w: the worker count of the generation that takes the checkpoint
+NoCkpt == [n |-> 0, w |-> 0, sr |-> {}, ops |-> <<>>, cur |-> [s \in Splits |-> 0], snaps |-> [o \in Workers |-> EmptySt]]
+
+Init == /\ nw \in Counts
+        /\ dead = {} /\ cursor = [s \in Splits |-> 0] /\ out = [r \in Workers |-> <<>>]
         /\ slot = [r \in Workers |-> [o \in Workers |-> NoMsg]]
         /\ inside = [r \in Workers |-> [o \in Workers |-> FALSE]]
         /\ pend = [o \in Workers |-> <<>>] /\ st = [o \in Workers |-> EmptySt] /\ bar = [o \in Workers |-> {}]
         /\ opack = [o \in Workers |-> None] /\ startq = [r \in Workers |-> 0] /\ srack = [r \in Workers |-> None]
-        /\ pending = NoCkpt /\ pub = NoCkpt
+        /\ pending = NoCkpt /\ pubs = {}
         /\ ckptId = 0 /\ completed = NoCkpt /\ nck = 0 /\ nkills = 0 /\ clean = TRUE /\ lostOps = {} /\ hist = <<>>
 
-\* a new generation: fresh job + fresh workers over cursors curs and operator states sts
-Reset(curs, sts) ==
-  /\ dead' = {} /\ cursor' = curs /\ out' = [r \in Workers |-> <<>>]
+\* a new generation: fresh job + n fresh workers over cursors curs and operator states sts
+Reset(n, curs, sts) ==
+  /\ nw' = n /\ dead' = {} /\ cursor' = curs /\ out' = [r \in Workers |-> <<>>]
   /\ slot' = [r \in Workers |-> [o \in Workers |-> NoMsg]]
   /\ inside' = [r \in Workers |-> [o \in Workers |-> FALSE]]
   /\ pend' = [o \in Workers |-> <<>>] /\ st' = sts /\ bar' = [o \in Workers |-> {}]
   /\ opack' = [o \in Workers |-> None] /\ startq' = [r \in Workers |-> 0] /\ srack' = [r \in Workers |-> None]
-  /\ pending' = NoCkpt /\ pub' = NoCkpt
+  /\ pending' = NoCkpt /\ pubs' = {}
 
 \* the history is only kept when generating behaviours (values that never reach the VIEW stay
 \* un-normalised and TLC cannot spill them to its disk queue)
-Log(r) == hist' = IF StopAtDone THEN Append(hist, r) ELSE hist
+\* every step carries w = the worker count of the generation it runs in (Restart: of the generation it boots)
+Log(r) == hist' = IF StopAtDone THEN Append(hist, r @@ [w |-> nw]) ELSE hist
 
 \* the dispatcher: hand head messages to idle sender goroutines, stop at the first busy one
 RECURSIVE Settle(_, _)
@@ -164,16 +207,16 @@ Read(r, s) ==
      IN /\ cursor' = [cursor EXCEPT ![s] = @ + 1]
         /\ out' = [out EXCEPT ![r] = z[1]] /\ slot' = sl
         /\ Log([a |-> "Read", r |-> r, s |-> s, i |-> e[2], arr |-> Arrivals(sl)])
-  /\ UNCHANGED <<dead, inside, pend, st, bar, opack, startq, srack, ckptId, pending, pub, completed, nck, nkills, clean, lostOps>>
+  /\ UNCHANGED <<nw, dead, inside, pend, st, bar, opack, startq, srack, ckptId, pending, pubs, completed, nck, nkills, clean, lostOps>>
 
 SrStart(r) ==
   /\ r \notin dead /\ startq[r] # 0 /\ srack[r] = None
   /\ srack' = [srack EXCEPT ![r] = [n |-> startq[r], cur |-> [s \in SplitsOf(r) |-> cursor[s]]]]
   /\ startq' = [startq EXCEPT ![r] = 0]
   /\ Log([a |-> "SrStart", r |-> r, n |-> startq[r], cur |-> [s \in Splits |-> IF s \in SplitsOf(r) THEN cursor[s] ELSE -1]])
-  /\ UNCHANGED <<dead, cursor, out, slot, inside, pend, st, bar, opack, ckptId, pending, pub, completed, nck, nkills, clean, lostOps>>
+  /\ UNCHANGED <<nw, dead, cursor, out, slot, inside, pend, st, bar, opack, ckptId, pending, pubs, completed, nck, nkills, clean, lostOps>>
 
-Complete(p) == p.sr = Workers /\ Len(p.ops) = W
+Complete(p) == p.sr = Live /\ Len(p.ops) = nw
 
 JobSrAck(r) ==
   /\ 0 \notin dead /\ srack[r] # None /\ pending.n = srack[r].n
@@ -182,11 +225,11 @@ JobSrAck(r) ==
          q  == IF r \in dead THEN out[r] ELSE out[r] \o BarMsgs(srack[r].n)
          z  == Settle(q, slot[r])
          sl == [slot EXCEPT ![r] = z[2]]
-     IN /\ IF Complete(p) THEN pub' = p /\ pending' = NoCkpt ELSE pending' = p /\ pub' = pub
+     IN /\ IF Complete(p) THEN pubs' = pubs \cup {p} /\ pending' = NoCkpt ELSE pending' = p /\ pubs' = pubs
         /\ out' = [out EXCEPT ![r] = z[1]] /\ slot' = sl
         /\ Log([a |-> "JobSrAck", r |-> r, n |-> srack[r].n, arr |-> Arrivals(sl), done |-> Complete(p)])
   /\ srack' = [srack EXCEPT ![r] = None]
-  /\ UNCHANGED <<dead, cursor, inside, pend, st, bar, opack, startq, ckptId, completed, nck, nkills, clean, lostOps>>
+  /\ UNCHANGED <<nw, dead, cursor, inside, pend, st, bar, opack, startq, ckptId, completed, nck, nkills, clean, lostOps>>
 
 \* ---- operator ------------------------------------------------------------
 \* add events q to operator o's batch starting from <<pend, state>>; process whenever the batch is full
@@ -222,7 +265,7 @@ Deliver(r, o) ==
              /\ out' = [out EXCEPT ![r] = z[1]] /\ slot' = sl
              /\ Log([a |-> "Deliver", r |-> r, o |-> o, k |-> "ev", s |-> m.s, i |-> m.i, res |-> "done", giv |-> f.giv, arr |-> Arrivals(sl)])
              /\ UNCHANGED <<inside, bar, opack>>
-     ELSE IF bar[o] \cup {r} # Workers
+     ELSE IF bar[o] \cup {r} # Live
      THEN \* barrier registered, more to come: the call returns
           LET sl0 == [slot EXCEPT ![r][o] = NoMsg]
               z   == Settle(out[r], sl0[r])
@@ -234,14 +277,14 @@ Deliver(r, o) ==
      ELSE \* last barrier: flush the pending batch, DKV checkpoint, ack in flight (operator blocked in the call)
           LET giv == GivenSeq(st[o], pend[o])
               s2  == ApplySeq(st[o], pend[o])
-          IN /\ bar' = [bar EXCEPT ![o] = Workers]
+          IN /\ bar' = [bar EXCEPT ![o] = Live]
              /\ pend' = [pend EXCEPT ![o] = <<>>] /\ st' = [st EXCEPT ![o] = s2]
              /\ clean' = (clean /\ AllClean(giv))
              /\ opack' = [opack EXCEPT ![o] = [n |-> m.n, snap |-> s2]]
              /\ inside' = [inside EXCEPT ![r][o] = TRUE]
              /\ Log([a |-> "Deliver", r |-> r, o |-> o, k |-> "bar", n |-> m.n, res |-> "snapshot", giv |-> giv, arr |-> {}])
              /\ UNCHANGED <<out, slot>>
-  /\ UNCHANGED <<dead, cursor, startq, srack, ckptId, pending, pub, completed, nck, nkills, lostOps>>
+  /\ UNCHANGED <<nw, dead, cursor, startq, srack, ckptId, pending, pubs, completed, nck, nkills, lostOps>>
 
 TimerFire(o) ==
   /\ B > 1 /\ o \notin dead /\ pend[o] # <<>> /\ opack[o] = None
@@ -249,7 +292,7 @@ TimerFire(o) ==
      /\ st' = [st EXCEPT ![o] = ApplySeq(@, pend[o])] /\ pend' = [pend EXCEPT ![o] = <<>>]
      /\ clean' = (clean /\ AllClean(giv))
      /\ Log([a |-> "TimerFire", o |-> o, giv |-> giv])
-  /\ UNCHANGED <<dead, cursor, out, slot, inside, bar, opack, startq, srack, ckptId, pending, pub, completed, nck, nkills, lostOps>>
+  /\ UNCHANGED <<nw, dead, cursor, out, slot, inside, bar, opack, startq, srack, ckptId, pending, pubs, completed, nck, nkills, lostOps>>
 
 \* parked events of operator o, in runner order
 RECURSIVE ParkedEvs(_, _)
@@ -260,7 +303,7 @@ ParkedEvs(o, r) == IF r > W THEN <<>>
 JobOpAck(o) ==
   /\ 0 \notin dead /\ opack[o] # None /\ pending.n = opack[o].n
   /\ LET p == [pending EXCEPT !.ops = Append(@, o), !.snaps = [@ EXCEPT ![o] = opack[o].snap]] IN
-     /\ IF Complete(p) THEN pub' = p /\ pending' = NoCkpt ELSE pending' = p /\ pub' = pub
+     /\ IF Complete(p) THEN pubs' = pubs \cup {p} /\ pending' = NoCkpt ELSE pending' = p /\ pubs' = pubs
      /\ opack' = [opack EXCEPT ![o] = None]
      /\ IF o \in dead
         THEN /\ Log([a |-> "JobOpAck", o |-> o, n |-> opack[o].n, giv |-> <<>>, arr |-> {}, done |-> Complete(p), resumed |-> FALSE])
@@ -276,34 +319,37 @@ JobOpAck(o) ==
                 /\ clean' = (clean /\ AllClean(f.giv))
                 /\ out' = [r \in Workers |-> z[r][1]] /\ slot' = sl
                 /\ Log([a |-> "JobOpAck", o |-> o, n |-> opack[o].n, giv |-> f.giv, arr |-> Arrivals(sl), done |-> Complete(p), resumed |-> TRUE])
-  /\ UNCHANGED <<dead, cursor, startq, srack, ckptId, completed, nck, nkills, lostOps>>
+  /\ UNCHANGED <<nw, dead, cursor, startq, srack, ckptId, completed, nck, nkills, lostOps>>
 
 \* ---- job ------------------------------------------------------------------
 Tick ==
-  /\ dead = {} /\ pending = NoCkpt /\ pub = NoCkpt /\ nck < MaxCkpt
+  /\ dead = {} /\ pending = NoCkpt /\ (Overlap \/ pubs = {}) /\ nck < MaxCkpt
   /\ \A r \in Workers : startq[r] = 0
   /\ ckptId' = ckptId + 1 /\ nck' = nck + 1
-  /\ pending' = [NoCkpt EXCEPT !.n = ckptId + 1]
-  /\ startq' = [r \in Workers |-> ckptId + 1]
-  /\ Log([a |-> "Tick", n |-> ckptId + 1])
-  /\ UNCHANGED <<dead, cursor, out, slot, inside, pend, st, bar, opack, srack, pub, completed, nkills, clean, lostOps>>
+  /\ pending' = [NoCkpt EXCEPT !.n = ckptId + 1, !.w = nw]
+  /\ startq' = [r \in Workers |-> IF r \in Live THEN ckptId + 1 ELSE 0]
+  /\ Log([a |-> "Tick", n |-> ckptId + 1, inflight |-> {q.n : q \in pubs}])
+  /\ UNCHANGED <<nw, dead, cursor, out, slot, inside, pend, st, bar, opack, srack, pubs, completed, nkills, clean, lostOps>>
 
-Publish ==
-  /\ 0 \notin dead /\ pub # NoCkpt
-  /\ completed' = pub /\ pub' = NoCkpt
-  /\ Log([a |-> "Publish", n |-> pub.n, cur |-> pub.cur, ops |-> pub.ops,
-          snaps |-> [o \in Workers |-> [cnt |-> {e \in Ev : pub.snaps[o].cnt[e] > 0}]]])
-  /\ UNCHANGED <<dead, cursor, out, slot, inside, pend, st, bar, opack, startq, srack, ckptId, pending, nck, nkills, clean, lostOps>>
+\* the write of p lands; a write that lands after a newer one is superseded (the file is removed again,
+\* nothing ever refers to it): storage keeps the highest id
+Publish(p) ==
+  /\ 0 \notin dead /\ p \in pubs
+  /\ completed' = IF p.n > completed.n THEN p ELSE completed
+  /\ pubs' = pubs \ {p}
+  /\ Log([a |-> "Publish", n |-> p.n, cur |-> p.cur, ops |-> p.ops, sup |-> p.n < completed.n,
+          snaps |-> [o \in Workers |-> [cnt |-> {e \in Ev : p.snaps[o].cnt[e] > 0}]]])
+  /\ UNCHANGED <<nw, dead, cursor, out, slot, inside, pend, st, bar, opack, startq, srack, ckptId, pending, nck, nkills, clean, lostOps>>
 
 \* ---- faults ---------------------------------------------------------------
 Kill(S) ==
   /\ S # {} /\ S \subseteq (Nodes \ dead) /\ nkills < MaxKills
   /\ dead' = {x \in Nodes : x \in dead \/ x \in S} /\ nkills' = nkills + 1
   /\ out' = [r \in Workers |-> IF r \in S THEN <<>> ELSE out[r]]
-  /\ IF 0 \in S THEN pending' = NoCkpt /\ pub' = NoCkpt /\ startq' = [r \in Workers |-> 0]
-     ELSE UNCHANGED <<pending, pub>> /\ startq' = [r \in Workers |-> IF r \in S THEN 0 ELSE startq[r]]
+  /\ IF 0 \in S THEN pending' = NoCkpt /\ pubs' = {} /\ startq' = [r \in Workers |-> 0]
+     ELSE UNCHANGED <<pending, pubs>> /\ startq' = [r \in Workers |-> IF r \in S THEN 0 ELSE startq[r]]
   /\ Log([a |-> "Kill", nodes |-> {x \in Nodes : x \in S}])
-  /\ UNCHANGED <<cursor, slot, inside, pend, st, bar, opack, srack, ckptId, completed, nck, clean, lostOps>>
+  /\ UNCHANGED <<nw, cursor, slot, inside, pend, st, bar, opack, srack, ckptId, completed, nck, clean, lostOps>>
 
 \* partitioning.AssignRanges with operator ranges abstracted to their index:
 \* to = <<1..W>>, from = completed.ops (ack order). Sweep(t, f) -> sequence of sets of positions in from
@@ -315,21 +361,29 @@ Take(from, j, t) == IF j <= Len(from) /\ from[j] <= t
 RECURSIVE Sweep(_, _, _)
 Sweep(from, t, f) == IF t > W THEN <<>>
                      ELSE LET f2 == Skip(from, f, t) IN <<Take(from, f2, t)>> \o Sweep(from, t + 1, f2)
-\* operator t restores from the checkpoints of the operators assigned to it (here: at most its own)
-Restored(c, t) ==
-  IF c.n = 0 THEN EmptySt
-  ELSE IF ~Dev_AssignUnsorted THEN c.snaps[t]
-  ELSE IF Sweep(c.ops, 1, 1)[t] = {} THEN EmptySt ELSE c.snaps[t]
+\* the old operators (of the c.w that took checkpoint c) whose checkpoints new operator t (of n) is deployed with
+Assigned(c, n, t) ==
+  IF G = 0 THEN (IF Dev_AssignUnsorted /\ Sweep(c.ops, 1, 1)[t] = {} THEN {} ELSE {t})
+  ELSE {f \in 1..c.w : Overlaps(n, t, c.w, f)}
+MaxOr0(S) == IF S = {} THEN 0 ELSE Max(S)
+\* operator t (of n) opens its DKV on the assigned checkpoints and keeps the keys it owns
+Restored(c, n, t) ==
+  IF c.n = 0 \/ t > n THEN EmptySt
+  ELSE LET fs == Assigned(c, n, t) IN
+       [cnt  |-> [e \in Ev |-> IF OwnerAt[n][Key(e)] = t THEN MaxOr0({c.snaps[f].cnt[e] : f \in fs}) ELSE 0],
+        last |-> [ks \in Keys \X Splits |->
+                    IF OwnerAt[n][ks[1]] = t THEN MaxOr0({c.snaps[f].last[ks] : f \in fs}) ELSE 0]]
 
-Restart ==
-  /\ dead # {}
-  /\ LET sts  == [o \in Workers |-> Restored(completed, o)]
-         lost == {o \in Workers : completed.n # 0 /\ sts[o] # completed.snaps[o]}
-     IN /\ Reset(completed.cur, sts)
+Restart(n) ==
+  /\ dead # {} /\ n \in Counts
+  /\ LET sts  == [o \in Workers |-> Restored(completed, n, o)]
+         lost == {o \in 1..n : completed.n # 0 /\ sts[o] # CutStAt(n, o, completed.cur)}
+     IN /\ Reset(n, completed.cur, sts)
         /\ lostOps' = {o \in Workers : o \in lostOps \/ o \in lost}
-        /\ Log([a |-> "Restart", n |-> completed.n, cur |-> completed.cur, lost |-> lost])
+        /\ Log([a |-> "Restart", n |-> completed.n, w |-> n, cur |-> completed.cur, lost |-> lost])
   /\ ckptId' = completed.n
   /\ UNCHANGED <<completed, nck, nkills, clean>>
+
 
 \* ---- termination ----------------------------------------------------------
 Drained == \A s \in Splits : cursor[s] = NRecs
@@ -337,21 +391,42 @@ Quiescent == /\ dead = {}
              /\ \A r \in Workers : out[r] = <<>> /\ srack[r] = None /\ startq[r] = 0
              /\ \A r, o \in Workers : slot[r][o] = NoMsg
              /\ \A o \in Workers : pend[o] = <<>> /\ opack[o] = None
-             /\ pending = NoCkpt /\ pub = NoCkpt
+             /\ pending = NoCkpt /\ pubs = {}
 Done == Quiescent /\ Drained
 \* generation stops at quiescence only once the kill budget is used (so kills also hit completed runs)
 GenDone == Done /\ nkills = MaxKills
 
-Next ==
-  /\ Len(hist) < MaxLen /\ (StopAtDone => ~GenDone)
+\* bounded behaviours; generation stops at GenDone
+En == Len(hist) < MaxLen /\ (StopAtDone => ~GenDone)
+\* job / restart actions under the names TLC's coverage report counts them by (top-level disjuncts of Next)
+TickIdle             == En /\ pubs = {} /\ Tick
+TickOverlap          == En /\ pubs # {} /\ Tick                    \* a checkpoint created while a publication is in flight
+Slow(i) == StopAtDone => RandomElement(1..PubDilution) = 1   \* (a parameter keeps TLC from evaluating it once)
+PublishNewest(i)     == En /\ Slow(i) /\ \E p \in pubs : p.n = i /\ p.n > completed.n /\ Publish(p)
+PublishSuperseded(i) == En /\ Slow(i) /\ \E p \in pubs : p.n = i /\ p.n < completed.n /\ Publish(p)   \* a write that lands after a newer one
+RestartSame(n)       == En /\ ~StopAtDone /\ n = nw /\ Restart(n)
+RestartRescaled(n)   == En /\ ~StopAtDone /\ n # nw /\ Restart(n)   \* rescale at recovery
+GenRestart           == En /\ StopAtDone /\ Restart(RandomElement(Counts))
+\* generation with diluted publications: a step that changes nothing (and logs nothing) keeps the
+\* simulator from stopping a behaviour in which the only thing left to do is a write it chose not to perform
+GenIdle              == En /\ StopAtDone /\ PubDilution > 1 /\ pubs # {} /\ UNCHANGED vars
+
+\* everything else: runner / operator / ack steps and Kill
+Others ==
+  /\ En
   /\ \/ \E r \in Workers : \/ \E s \in Splits : Read(r, s)
                            \/ SrStart(r) \/ JobSrAck(r) \/ TimerFire(r) \/ JobOpAck(r)
                            \/ \E o \in Workers : Deliver(r, o)
-     \/ Tick \/ Publish \/ Restart
      \/ IF StopAtDone
         THEN \* generation: one random candidate set, diluted, so that kills spread over the behaviour
              (Quiescent \/ RandomElement(1..KillDilution) = 1) /\ Kill(RandomElement(SUBSET Nodes \ {{}}))
         ELSE \E S \in SUBSET Nodes : Kill(S)
+
+Next ==
+  \/ Others
+  \/ TickIdle \/ TickOverlap \/ GenRestart \/ GenIdle
+  \/ \E i \in 1..MaxCkpt : PublishNewest(i) \/ PublishSuperseded(i)     \* ids never exceed the number of checkpoints created
+  \/ \E n \in Counts : RestartSame(n) \/ RestartRescaled(n)
 
 Spec == Init /\ [][Next]_vars
 
@@ -362,11 +437,11 @@ SeenIsClean == clean
 NoLoss == Done => \A e \in Ev : st[Own(e)].cnt[e] = 1
 FinalState == Done => \A o \in Workers : st[o] = CutSt(o, [s \in Splits |-> NRecs])
 \* every checkpoint handed to storage is the failure-free state at its own cursors
-CutOK(c) == c.n # 0 => \A o \in Workers : c.snaps[o] = CutSt(o, c.cur)
-ConsistentCut == CutOK(pub) /\ CutOK(completed)
+CutOK(c) == c.n # 0 => \A o \in Workers : c.snaps[o] = CutStAt(c.w, o, c.cur)
+ConsistentCut == CutOK(completed) /\ \A p \in pubs : CutOK(p)
 NoLostOps == lostOps = {}
 
-TypeOK == /\ dead \subseteq Nodes /\ nck \in 0..MaxCkpt /\ nkills \in 0..MaxKills
+TypeOK == /\ nw \in Counts /\ dead \subseteq Nodes /\ nck \in 0..MaxCkpt /\ nkills \in 0..MaxKills
           /\ \A s \in Splits : cursor[s] \in 0..NRecs
 
 \* Behaviour export (simulation): one JSON line per finished behaviour
